@@ -170,7 +170,7 @@ def check_c02(tier, replay=None):
 def check_c11(tier, replay=None):
     return _run('C11', tier, replay,
                 'every instance of the StoneSemMC scenarios authored in several orders (quick: ascending, descending, rotated; '
-                'thorough: all permutations of up to five definitions, all rotations in both directions beyond) x file splits x file orders: verdict, projected Api and the bytes of python_types, '
+                'thorough: all permutations of up to four definitions, all rotations in both directions beyond) x file splits x file orders: verdict, projected Api and the bytes of python_types, '
                 'python_type_stubs and js_types output must coincide for all layouts of the same definitions; plus every sequence of '
                 '<= 3 (thorough 4) physical lines over the 33-letter StoneLex alphabet (comments, blank and whitespace-only lines, '
                 'trailing comments, nested and broken parentheses): real Lexer skeleton = StoneLex!OpLex, whose LayoutInvariance TLC checks; plus every sequence of <= 2 files of <= 1 (thorough 2) body lines '
